@@ -1,4 +1,5 @@
 #!/bin/bash
+export VERIF_EVIDENCE_DIR=${VERIF_EVIDENCE_DIR:-/var/tmp/evidence_scratch}  # exploratory run: do not touch /verif/evidence
 # usage: run_mutants.sh [pattern]  : apply every mutants/<ID>-*.patch to a scratch worktree of /repo HEAD, run the quick check of <ID>
 # against it (VERIF_REPO) and report caught / missed / does-not-apply. Results -> mutants/RESULTS.md
 cd /verif; PAT=${1:-C}; [ "$PAT" = C ] && : > /var/tmp/mutants_results.txt
